@@ -302,12 +302,37 @@ def r6_last_writer_wins(cx):
              "every path through ClaimTable::cache binds the address to the peer the frame came from (last writer wins)")
 
 
+def r7_only_learning_refreshes(cx):
+    """A learned address is forgotten one switch timeout after the last frame *from* it: the expiry of a cache entry is
+    set when the entry is created (ClaimTable::cache for learning, the cold path of lookup for claim decisions) and is
+    otherwise only zeroed by withdrawal / disconnect.  Traffic *towards* an address (a lookup hit) must not extend
+    it.  Who-may-write rule on CacheValue.timeout: field stores only in set_claims / remove_claims and only of the
+    constant 0; constructions only in cache() and lookup()."""
+    prog = cx.prog
+    w = field_writes(prog, "CacheValue", "timeout")
+    bad = []
+    for (b, bi, k, s0) in w:
+        zero = k == "assign" and s0.get("rv", {}).get("k") == "use" and op_const(s0["rv"]["op"]) == 0
+        if not (b.name in ("set_claims", "remove_claims") and zero):
+            bad.append((b, bi))
+    cx.check("expiry-writers", not bad, site_of(bad[0][0], bad[0][1]) if bad else None,
+             "CacheValue.timeout is stored to only by set_claims / remove_claims, and only to expire the entry (found %d other store(s))" % len(bad))
+    cx.floor("expiry-zeroing-stores", len(w) - len(bad), 2, "stores that expire cache entries")
+    ags = sorted(set(b.name for (b, bi, s0) in aggregates(prog, "CacheValue")))
+    cx.check("entry-constructors", set(ags) <= {"cache", "lookup"} and "cache" in ags, None, "cache entries are created only by cache() (learning) and lookup() (claim decision); found %s" % ags)
+    # the cache hit of lookup hands out the stored peer through a shared borrow
+    lk = A.method(prog, "ClaimTable", "lookup")
+    muts = calls_on_field(prog, ("collections::HashMap::get_mut", "collections::HashMap::entry", "collections::HashMap::iter_mut", "collections::HashMap::values_mut"), "ClaimTable", "cache", bodies=[lk])
+    cx.check("lookup-hit-read-only", not muts, site_of(lk, muts[0][1]) if muts else site_of(lk), "lookup never borrows the cache entries mutably (a hit does not refresh the entry)")
+
+
 RULES = [
     ("C13.R1", r1_mode_table, "(mode, device type) -> (learning, broadcast) equals the documented table"),
     ("C13.R2", r2_learning_under_flag, "learning only under the flag, only from received payload, (source address, sending peer)"),
     ("C13.R3", r3_no_dead_comparison, "no comparison of byte sequences with different static lengths in the dissector/table code"),
     ("C13.R4", r4_tag_arithmetic, "802.1Q constants: TPID 0x8100, 12-bit mask, single tag"),
     ("C13.R5", r5_expiry, "learned entries expire at now + switch timeout and are swept each tick"),
+    ("C13.R7", r7_only_learning_refreshes, "only frames from an address (learning) set its expiry; a lookup hit never refreshes a cache entry"),
     ("C13.R6", r6_last_writer_wins, "every call of the learning routine rebinds the address to the sending peer"),
 ]
 
